@@ -205,7 +205,7 @@ def run(ctx):
     ctx.assumptions = ["tolerance 1e-6 + 1e-10*depth absolute in log space (lgamma cancellation)",
                        "scipy.stats.binom / betabinom log-pmf as reference primitives"]
     shards = 16
-    tasks = [{"seed": ctx.seed, "shard": i, "count": 14 if quick else 300} for i in range(shards)]
+    tasks = [{"seed": ctx.seed, "shard": i, "count": 14 if quick else 800} for i in range(shards)]
     ctx.map("checks.c05", "file_task", tasks, timeout=3000)
     tasks = [{"seed": ctx.seed, "shard": i, "count": 6 if quick else 100} for i in range(shards)]
     ctx.map("checks.c05", "norm_task", tasks, timeout=3000)
